@@ -66,3 +66,9 @@ pub assume_specification<T, A, I> [ <std::vec::Vec<T, A> as std::iter::Extend<T>
     ensures final(v)@ == old(v)@ + vx_into_seq::<T, I>(it);
 pub broadcast axiom fn axiom_into_seq_vec<T>(v: Vec<T>)
     ensures #[trigger] vx_into_seq::<T, Vec<T>>(v) == v@;
+
+/// A-std: io::Error::new keeps the given kind (rewrite rule R2 maps `io::Error::new(kind, text)` here).
+#[verifier::external_body]
+pub fn vx_io_error_new(kind: std::io::ErrorKind, text: String) -> (r: std::io::Error)
+    ensures io_kind(&r) == kind
+{ unimplemented!() }
